@@ -69,6 +69,20 @@ fn thread_body(sh: Arc<Shared>, tid: u64, n_ops: usize, seed: u64, replay: serde
         st.inconclusive.push("cannot rebuild the master key".into());
         return st;
     };
+    // a private, larger master key: one more dimension of hybridized attributes, so that re-keying
+    // it holds the shared lock for milliseconds (long critical sections are part of the schedule
+    // space: a caller that gives up or misbehaves while somebody holds the lock must show up)
+    if tid % 2 == 0 {
+        let _ = msk.access_structure.add_anarchy("X".into());
+        for i in 0..6 {
+            let _ = msk.access_structure.add_attribute(QualifiedAttribute::new("X", &format!("x{i}")), hint(true), None);
+        }
+        if !call(|| cc.update_msk(&mut msk)).is_ok() {
+            fail(&sh, "update-fails", "private master key".into(), &replay);
+        }
+    }
+    let star = AccessPolicy::parse("*").unwrap();
+    let mut my_mpk: Option<MasterPublicKey> = None;
     let mut my_usk: Option<(UserSecretKey, bool, bool)> = None;
     for _ in 0..n_ops {
         if sh.stop.load(Ordering::Relaxed) {
@@ -76,7 +90,7 @@ fn thread_body(sh: Arc<Shared>, tid: u64, n_ops: usize, seed: u64, replay: serde
         }
         let hybrid = rng.chance(1, 2);
         let ap = if hybrid { &sh.fx.hybrid_ap } else { &sh.fx.classic_ap };
-        let op = rng.weighted(&[6, 8, 4, 4, 2, 2, 2]);
+        let op = rng.weighted(&[6, 8, 4, 5, 2, 2, 2, 1]);
         match op {
             0 => {
                 // encaps → queue
@@ -194,6 +208,22 @@ fn thread_body(sh: Arc<Shared>, tid: u64, n_ops: usize, seed: u64, replay: serde
                     o => fail(&sh, "recaps-fails", o.describe(), &replay),
                 }
             }
+            7 => {
+                // long critical section: re-key every right of the private master key
+                match call(|| cc.rekey(&mut msk, &star)) {
+                    Out::Ok(m) => {
+                        my_mpk = Some(m);
+                        st.bump("long_rekeys")
+                    }
+                    o => fail(&sh, "rekey-fails", o.describe(), &replay),
+                }
+                // this thread's key is now stale for the rotated rights: refresh it
+                if let Some((u, _, _)) = &mut my_usk {
+                    if !call(|| cc.refresh_usk(&mut msk, u, true)).is_ok() {
+                        fail(&sh, "refresh-fails", "after a long rekey".into(), &replay);
+                    }
+                }
+            }
             _ => {
                 // refresh this thread's key, then check it against a queued encapsulation
                 if let Some((u, _, kh)) = &mut my_usk {
@@ -202,14 +232,14 @@ fn thread_body(sh: Arc<Shared>, tid: u64, n_ops: usize, seed: u64, replay: serde
                         Out::Ok(()) => st.bump("refreshes"),
                         o => fail(&sh, "refresh-fails", o.describe(), &replay),
                     }
-                    let item = {
-                        let q = sh.queue.lock().unwrap();
-                        q.iter().rev().find(|x| x.2 == *kh).cloned()
-                    };
-                    if let Some((e, s, _)) = item {
+                    // a fresh encapsulation under the public key of this thread's master key (the
+                    // shared one until the private key was re-keyed) must open with the refreshed key
+                    let kap = if *kh { &sh.fx.hybrid_ap } else { &sh.fx.classic_ap };
+                    let mpk_now = my_mpk.as_ref().unwrap_or(&sh.fx.mpk);
+                    if let Out::Ok((s, e)) = call(|| cc.encaps(mpk_now, kap)) {
                         match call(|| cc.decaps(u, &e)) {
-                            Out::Ok(Some(x)) if real::secret_bytes(&x) == s => st.bump("decaps_authorized_ok"),
-                            o => fail(&sh, "own-key-decaps-differs-from-sequential-meaning", o.describe(), &replay),
+                            Out::Ok(Some(x)) if real::secret_bytes(&x) == real::secret_bytes(&s) => st.bump("decaps_authorized_ok"),
+                            o => fail(&sh, "own-key-decaps-differs-from-sequential-meaning", match o { Out::Ok(Some(_)) => "wrong secret".to_string(), Out::Ok(None) => "None".to_string(), x => x.describe() }, &replay),
                         }
                     }
                 }
